@@ -208,6 +208,22 @@ func (t1 *Tasks) Merge(t2 *Tasks, include *Include, includedTaskfileVars *Vars) 
 	return nil
 }
 
+// setDefaults gives every task that does not declare its own method or run
+// option the given one (if any), and makes every task silent if silent is
+// true. These are the defaults of the Taskfile the tasks are declared in.
+// Calling it more than once with the same values changes nothing.
+func (tasks *Tasks) setDefaults(method string, run string, silent bool) {
+	for task := range tasks.Values(nil) {
+		if task.Method == "" {
+			task.Method = method
+		}
+		if task.Run == "" {
+			task.Run = run
+		}
+		task.Silent = task.Silent || silent
+	}
+}
+
 func (t *Tasks) UnmarshalYAML(node *yaml.Node) error {
 	if t == nil || t.om == nil {
 		*t = *NewTasks()
